@@ -2,9 +2,9 @@ SPECIFICATION MCSpec
 CONSTANTS
   W = 2
   MaxMsgs = 2
-  MaxBytes = 8
+  MaxBytes = 7
   Metas = {1}
-  Bodies = {0, 2}
+  Bodies = {0, 1}
   Extras = {0, 1}
 INVARIANTS I_Window I_ChunkIndependent I_FramingSemantics
 CHECK_DEADLOCK TRUE
